@@ -457,11 +457,19 @@ func identityProp(rec *stats.Recorder) func(rt *rapid.T) {
 			main = append(main, base...)
 			k := rapid.IntRange(0, len(main)-1).Draw(rt, "nearAt")
 			v := []rune(main[k].V)
-			nearOp := rp.Pick(rt, "nearOp", "append", "drop", "case", "prefix", "empty", "empty")
+			nearOp := rp.Pick(rt, "nearOp", "append", "drop", "case", "prefix", "empty", "empty", "whitespace", "whitespace")
+			if nearOp == "whitespace" && !strings.Contains(strings.TrimSpace(main[k].V), " ") {
+				nearOp = "append" // no interior blank to vary
+			}
 			if mandatory := main[k].T == "C" || main[k].T == "ST" || main[k].T == "O"; nearOp == "empty" && (mandatory || main[k].V == "") {
 				nearOp = "append" // mandatory attributes cannot be empty in an identity
 			}
 			switch nearOp {
+			case "whitespace": // the same words, other white space between them: another value
+				t := strings.TrimSpace(main[k].V)
+				i := strings.Index(t, " ")
+				lead := main[k].V[:strings.Index(main[k].V, t)]
+				v = []rune(lead + t[:i] + rp.Pick(rt, "blank", "  ", "\t", " \t ") + t[i+1:] + main[k].V[len(lead)+len(t):])
 			case "empty":
 				v = nil
 			case "append":
